@@ -292,6 +292,9 @@ def run(ctx):
     # generated programs: control-flow and type/resource shapes the corpus does not contain
     nprog = ctx.scale(100, 1500)
     progs = c02gen.programs(ctx.rng.fork("gen"), nprog)
+    progs += c02gen.layout_programs()
+    feats = c02gen.feature_programs()
+    progs += feats
     # typed compute programs of the shared generator (helper calls in loops and continuing blocks, a helper
     # that is the sole user of a buffer, forward references): half of them rendered entry-point-first
     import wgslgen
